@@ -334,6 +334,32 @@ fn crafted_fixed(size: usize, wrap_tag: Option<&'static [u8]>) -> Box<dyn Fn(u64
         if let Some(t) = wrap_tag {
             b.extend_from_slice(t);
         }
+        if rng.chance(1, 8) {
+            // a text string of exactly the right length where a byte string is expected: ill-typed
+            let mut t = Vec::new();
+            if size < 24 {
+                t.push(0x60 | size as u8);
+            } else {
+                t.extend_from_slice(&[0x78, size as u8]);
+            }
+            t.extend(std::iter::repeat(b'A').take(size));
+            b.extend(t);
+            return (b, Some(false));
+        }
+        if rng.chance(1, 6) {
+            // an indefinite-length byte string: one small chunk, then a chunk that announces an
+            // absurd length (and delivers nothing). Must be rejected, not crash.
+            let k = rng.urange(0, size.min(4));
+            b.push(0x5f);
+            b.push(0x40 | k as u8);
+            b.extend(rng.bytes(k));
+            b.push(0x5b);
+            b.extend_from_slice(&(*rng.pick(&[u64::MAX, u64::MAX - 1, 1u64 << 63, (1u64 << 32) + 5, u64::MAX - 31])).to_be_bytes());
+            if rng.coin() {
+                b.push(0x00);
+            }
+            return (b, Some(false));
+        }
         b.extend(indefinite_bytes(&mut rng, total));
         (b, Some(total == size))
     })
@@ -485,6 +511,104 @@ fn crafted_amount_list(seed: u64) -> (Vec<u8>, Option<bool>) {
     }
 }
 
+/// Integers given as bignums (tag 2 = non-negative, tag 3 = -1 - n). Firm expectation: content that
+/// does not fit the 64-bit target - any non-zero byte in front of the last 8 - is rejected.
+fn crafted_bignum(seed: u64, signed: bool) -> (Vec<u8>, Option<bool>) {
+    let mut rng = Rng::new(seed);
+    let negative = signed && rng.coin();
+    let len = *rng.pick(&[1usize, 8, 9, 10, 16, 17, 18, 24, 33]);
+    let mut content = vec![0u8; len];
+    // the low 8 bytes: small enough to fit also the signed target
+    let low = rng.next_u64() >> rng.range(2, 40);
+    let k = len.min(8);
+    content[len - k..].copy_from_slice(&low.to_be_bytes()[8 - k..]);
+    let overflow = len > 8 && rng.coin();
+    if overflow {
+        let at = rng.usize_below(len - 8);
+        content[at] = rng.range(1, 255) as u8;
+    }
+    let mut b = vec![if negative { 0xc3 } else { 0xc2 }];
+    if len < 24 {
+        b.push(0x40 | len as u8);
+    } else {
+        b.extend_from_slice(&[0x58, len as u8]);
+    }
+    b.extend(content);
+    // in range: whether leading zero bytes are tolerated is the decoder's choice
+    (b, if overflow { Some(false) } else { None })
+}
+
+/// A definite-length string of the wrong major type (bytes for text, text for bytes): ill-typed.
+fn crafted_wrong_string(seed: u64, want_text: bool) -> (Vec<u8>, Option<bool>) {
+    let mut rng = Rng::new(seed);
+    let n = rng.urange(0, 30);
+    let mut b = Vec::new();
+    let major = if want_text { 0x40 } else { 0x60 };
+    if n < 24 {
+        b.push(major | n as u8);
+    } else {
+        b.extend_from_slice(&[major | 24, n as u8]);
+    }
+    b.extend((0..n).map(|i| b'a' + (i % 26) as u8));
+    (b, Some(false))
+}
+
+/// A token operation with one field this version does not know. Unknown fields are skipped: the
+/// operation is accepted whatever well-formed item the field holds (also text delivered in chunks),
+/// and rejected when the item is not well-formed (text that is not UTF-8).
+fn crafted_unknown_field(seed: u64) -> (Vec<u8>, Option<bool>) {
+    let mut rng = Rng::new(seed);
+    fn text(s: &str, out: &mut Vec<u8>) {
+        out.push(0x60 | s.len() as u8);
+        out.extend_from_slice(s.as_bytes());
+    }
+    let mut b = vec![0xa1];
+    text(if rng.coin() { "mint" } else { "burn" }, &mut b);
+    b.push(0xa2);
+    text("amount", &mut b);
+    b.extend_from_slice(&[0xc4, 0x82, 0x22, 0x19, 0x30, 0x0c]);
+    text("note", &mut b);
+    let mut ok = true;
+    let wrap = rng.below(3); // plain, inside an array, inside a map
+    match wrap {
+        1 => b.push(0x81),
+        2 => {
+            b.push(0xa1);
+            text("k", &mut b);
+        }
+        _ => {}
+    }
+    match rng.below(6) {
+        0 => text("hello", &mut b),
+        1 => {
+            // indefinite-length text in chunks
+            b.push(0x7f);
+            text("he", &mut b);
+            text("llo", &mut b);
+            b.push(0xff);
+        }
+        2 => {
+            // a multi-byte character split across two chunks is not valid text
+            b.push(0x7f);
+            b.extend_from_slice(&[0x61, 0xc3]);
+            b.extend_from_slice(&[0x61, 0xa9]);
+            b.push(0xff);
+            ok = false;
+        }
+        3 => {
+            // definite text that is not UTF-8
+            b.extend_from_slice(&[0x62, 0xc3, 0x28]);
+            ok = false;
+        }
+        4 => {
+            // indefinite byte string
+            b.extend_from_slice(&[0x5f, 0x42, 1, 2, 0x41, 3, 0xff]);
+        }
+        _ => b.extend_from_slice(&[0x1b, 0xff, 0xff, 0xff, 0xff, 0xff, 0xff, 0xff, 0xff]),
+    }
+    (b, Some(ok))
+}
+
 fn with_crafted(mut s: Subject, c: Box<dyn Fn(u64) -> (Vec<u8>, Option<bool>) + Send + Sync>) -> Subject {
     s.crafted = Some(c);
     s
@@ -505,17 +629,17 @@ pub fn cbor_subjects() -> Vec<Subject> {
     v.push(cbor_subject::<u8>("u8", false, |r| g_u64(r) as u8));
     v.push(cbor_subject::<u16>("u16", false, |r| g_u64(r) as u16));
     v.push(cbor_subject::<u32>("u32", false, |r| g_u64(r) as u32));
-    v.push(cbor_subject::<u64>("u64", false, g_u64));
+    v.push(with_crafted(cbor_subject::<u64>("u64", false, g_u64), Box::new(|seed| crafted_bignum(seed, false))));
     v.push(cbor_subject::<usize>("usize", false, |r| g_u64(r) as usize));
     v.push(cbor_subject::<i8>("i8", false, |r| g_i64(r) as i8));
     v.push(cbor_subject::<i16>("i16", false, |r| g_i64(r) as i16));
     v.push(cbor_subject::<i32>("i32", false, |r| g_i64(r) as i32));
-    v.push(cbor_subject::<i64>("i64", false, g_i64));
+    v.push(with_crafted(cbor_subject::<i64>("i64", false, g_i64), Box::new(|seed| crafted_bignum(seed, true))));
     v.push(cbor_subject::<bool>("bool", false, |r| r.coin()));
     v.push(cbor_subject::<f64>("f64", false, g_f64));
-    v.push(cbor_subject::<String>("String", false, g_string));
+    v.push(with_crafted(cbor_subject::<String>("String", false, g_string), Box::new(|seed| crafted_wrong_string(seed, true))));
     v.push(cbor_subject::<String>("String(around the 4096-byte chunk)", false, |r| if r.chance(2, 3) { g_long_string(r) } else { g_string(r) }));
-    v.push(cbor_subject::<Bytes>("Bytes", false, |r| Bytes(g_bytes(r))));
+    v.push(with_crafted(cbor_subject::<Bytes>("Bytes", false, |r| Bytes(g_bytes(r))), Box::new(|seed| crafted_wrong_string(seed, false))));
     v.push(with_crafted(
         cbor_subject::<[u8; 4]>("[u8;4]", false, |r| {
             let b = r.bytes(4);
@@ -563,7 +687,7 @@ pub fn cbor_subjects() -> Vec<Subject> {
     v.push(cbor_subject::<plt::CborHolderAccount>("CborHolderAccount", false, g_holder));
     v.push(cbor_subject::<plt::CborHolderAccount>("CborHolderAccount(fail-unknown)", true, g_holder));
     v.push(cbor_subject::<plt::CborMemo>("CborMemo", false, g_cbor_memo));
-    v.push(cbor_subject::<plt::TokenOperation>("TokenOperation", false, g_operation));
+    v.push(with_crafted(cbor_subject::<plt::TokenOperation>("TokenOperation", false, g_operation), Box::new(crafted_unknown_field)));
     v.push(cbor_subject::<plt::TokenOperation>("TokenOperation(fail-unknown)", true, g_operation));
     v.push(cbor_subject::<plt::TokenOperations>("TokenOperations", false, g_operations));
     v.push(cbor_subject::<plt::TokenTransfer>("TokenTransfer", false, |r| plt::TokenTransfer {
